@@ -190,7 +190,7 @@ def sync_group_ops(fk, rng):
 
 def one_config(rng, env, nops, with_sync):
     decl = mapdecl.rand_decl(rng, ordered=0.5)   # half of the declarations also use formats with a byte order
-    fk = fakekernel.FakeKernel(possible=env["possible"], online=env["online"], affinity=env.get("affinity"),
+    fk = fakekernel.FakeKernel(possible=env.get("mask") or env["possible"], online=env["online"], affinity=env.get("affinity"),
                                 pin=env.get("pin"))
     with fk:
         built = mapdecl.build(decl)
@@ -210,7 +210,7 @@ def inherited_percpu_config(env, order):
     from ebpfcat.bpf import ProgType
     from ebpfcat.ebpf import EBPF
     from ebpfcat.arraymap import PerCPUArrayMap
-    fk = fakekernel.FakeKernel(possible=env["possible"], online=env["online"], affinity=env.get("affinity"),
+    fk = fakekernel.FakeKernel(possible=env.get("mask") or env["possible"], online=env["online"], affinity=env.get("affinity"),
                                 pin=env.get("pin"))
     log = []
     with fk:
@@ -272,7 +272,12 @@ CHECK_DEADLOCK FALSE
             dict(name="sim-hotplug", possible=8, online=2, affinity=1),
             dict(name="sim-hotplug", possible=5, online=4),
             dict(name="sim-confined", possible=6, online=6, affinity=2),
-            dict(name="host-confined", possible=host, online=None, pin=1 if host > 1 else None)]
+            dict(name="host-confined", possible=host, online=None, pin=1 if host > 1 else None),
+            # possible masks that are not one contiguous range (the kernel prints them as a list of ranges)
+            dict(name="sim-sparse", possible=8, mask="0-3,8-11", online=8),
+            dict(name="sim-sparse", possible=3, mask="0,2-3", online=3),
+            dict(name="sim-sparse", possible=4, mask="0,2,4,6", online=4),
+            dict(name="sim-sparse", possible=6, mask="0-1,4-5,8,31", online=4, affinity=2)]
     nconf = 150 if ctx.quick else 1200
     nops = 30 if ctx.quick else 60
     runs = []
@@ -298,7 +303,10 @@ CHECK_DEADLOCK FALSE
             for f in ("keybuf", "valbuf", "nextbuf"):
                 if e[f] < 0:
                     raise T.MachineryError(f"buffer behind a user pointer not found: {e}")
-        traces.append(dict(ncpu=env["possible"], ev=[{f: e[f] for f in EVFIELDS} for e in events]))
+        # the range list, not a number: the specification counts the possible CPUs itself
+        ranges = fakekernel.parse_cpulist(env["mask"]) if env.get("mask") else \
+            (fakekernel.host_possible_ranges() if env["online"] is None else [[0, env["possible"] - 1]])
+        traces.append(dict(possible=ranges, ev=[{f: e[f] for f in EVFIELDS} for e in events]))
         meta.append(dict(env=env, decl=decl, events=events, log=log, ident=ident))
 
     rejects = {}
@@ -350,7 +358,8 @@ CHECK_DEADLOCK FALSE
                                   f"{e['op']} on {e['type']} map (key {e['ks']}, value {e['vs']}) with key buffer "
                                   f"{e['keybuf']}, value buffer {e['valbuf']}, next-key buffer {e['nextbuf']}; "
                                   f"possible CPUs {m['env']['possible']}, online {m['env'].get('online') or m['env'].get('online_seen')}, "
-                                  f"process confined to {m['env'].get('affinity') or m['env'].get('pin') or 'all'} ({m['env']['name']})")
+                                  f"process confined to {m['env'].get('affinity') or m['env'].get('pin') or 'all'} ({m['env']['name']}"
+                                  f"{' mask ' + m['env']['mask'] if m['env'].get('mask') else ''})")
     ctx.extra["api_operations"] = ops_seen
     ctx.extra["environments"] = envs
     ctx.assumptions.append("the fake kernel's transfer sizes follow kernel/bpf/syscall.c (bpf_map_value_size); "
